@@ -545,3 +545,199 @@ Theorem C15_sex_quarter_is_sharp :
   bounded_noise (1 # 4) 0 false false None quarter_witness /\
   forall gstat : mtable -> Q, sex_decision gstat false None quarter_witness = Some false.
 Proof. exact quarter_is_sharp. Qed.
+
+(* ============================================================================================== *)
+(* loop ties / function-body ties, second batch (LOOP_TIES_GUIDE.md; specs tools/fnspecs/cnary_loops.py): whole bodies,
+   dispatch code and per-row code of cnvlib/cnary.py translated on every run, each equal to the model's function *)
+From CNV Require Proofs.FnCnaryXFilter Proofs.FnCnaryYFilter.
+
+(* parx_filter, the whole function per row: on chrX (the table's label) and inside PAR1X or PAR2X of the build *)
+Theorem C15_source_parx_filter : forall t p b gb,
+  parx_filter t p b =
+  let '(s1, e1, s2, e2) := par_x p in
+  Gen.FnCnaryXFilter.fn_parx_filter (b_chrom b) (b_start b) (b_end b) gb (x_label t) s1 e1 s2 e2.
+Proof. exact Proofs.FnCnaryXFilter.fn_parx_filter_eq. Qed.
+
+(* chr_x_filter, the whole function per row: on chrX, and outside the PAR when a build is given -- the inner call is the
+   generated parx_filter *)
+Theorem C15_source_chr_x_filter : forall t build b gb,
+  chr_x_filter t build b =
+  Gen.FnCnaryXFilter.fn_chr_x_filter (b_chrom b) (x_label t) (Proofs.FnCnaryXFilter.has_build_x build)
+                                     (Proofs.FnCnaryXFilter.fn_parx_of t build gb b).
+Proof. exact Proofs.FnCnaryXFilter.fn_chr_x_filter_eq. Qed.
+
+(* pary_filter / chr_y_filter likewise *)
+Theorem C15_source_pary_filter : forall t p b gb,
+  pary_filter t p b =
+  let '(s1, e1, s2, e2) := par_y p in
+  Gen.FnCnaryYFilter.fn_pary_filter (b_chrom b) (b_start b) (b_end b) gb (y_label t) s1 e1 s2 e2.
+Proof. exact Proofs.FnCnaryYFilter.fn_pary_filter_eq. Qed.
+
+Theorem C15_source_chr_y_filter : forall t build b gb,
+  chr_y_filter t build b =
+  Gen.FnCnaryYFilter.fn_chr_y_filter (b_chrom b) (y_label t) (Proofs.FnCnaryYFilter.has_build_y build)
+                                     (Proofs.FnCnaryYFilter.fn_pary_of t build gb b).
+Proof. exact Proofs.FnCnaryYFilter.fn_chr_y_filter_eq. Qed.
+
+From CNV Require Proofs.FnCnaryMood Proofs.FnCnaryChrom.
+
+(* compare_to_auto, the whole nested function (try / except ValueError / else around scipy's median_test, then the rule
+   `stat == 0 and 0 in cont`): the model's mood_stat is its first result when median_test raises exactly where the model
+   says (an empty sample, an empty row / column of the table), returns the oracle's statistic and `0 in cont` is
+   table_has_zero ... *)
+Theorem C15_source_mood_stat : forall gstat s1 s2 p med cont use wa wv ma mv,
+  mood_stat gstat s1 s2 =
+  fst (Gen.FnCnaryMood.fn_compare_to_auto (Proofs.FnCnaryMood.mood_raises s1 s2) (gstat (mood_table s1 s2)) p med cont
+                                          (table_has_zero (mood_table s1 s2)) use wa wv ma mv).
+Proof. exact Proofs.FnCnaryMood.fn_mood_stat_eq. Qed.
+
+(* ... and med_diff its second result: |weighted median - weighted median| when the table has weights, else
+   |median - median|, whatever the test did *)
+Theorem C15_source_med_diff : forall raised st p med cont zc (use : bool) auto_l aw vals vw,
+  med_diff auto_l (if use then Some aw else None) vals (if use then Some vw else None) ==
+  snd (Gen.FnCnaryMood.fn_compare_to_auto raised st p med cont zc use (wmed auto_l aw) (wmed vals vw)
+                                          (median auto_l) (median vals)).
+Proof. exact Proofs.FnCnaryMood.fn_med_diff_eq. Qed.
+
+(* compare_chrom, the whole nested function: the female-shift call first, the male-shift call second, then the ratio --
+   the model's male_lr on the model's two compare_to_auto results *)
+Theorem C15_source_male_lr : forall gstat auto_l auto_w vals w female_shift male_shift,
+  male_lr gstat auto_l auto_w vals w female_shift male_shift ==
+  Gen.FnCnaryChrom.fn_compare_chrom_whole
+    (mood_stat gstat auto_l (Proofs.FnCnaryChrom.shifted vals female_shift))
+    (med_diff auto_l auto_w (Proofs.FnCnaryChrom.shifted vals female_shift) w)
+    (val_of (mood_stat gstat auto_l (Proofs.FnCnaryChrom.shifted vals male_shift)))
+    (med_diff auto_l auto_w (Proofs.FnCnaryChrom.shifted vals male_shift) w)
+    (some_of (mood_stat gstat auto_l (Proofs.FnCnaryChrom.shifted vals male_shift))).
+Proof. exact Proofs.FnCnaryChrom.fn_male_lr_eq. Qed.
+
+From CNV Require Proofs.FnCnaryCenter Proofs.FnCnaryEstimator.
+
+(* center_all after the selection (`if cnarr: ... self.data["log2"] += shift`), per row: nothing selected -> untouched;
+   otherwise log2 - estimator(per-chromosome estimates | selected values), by_chrom deciding which; no other column moves *)
+Theorem C15_source_center_all : forall est by_chrom skip_low build t verbose,
+  let sel := center_selection skip_low build t in
+  Forall2 (fun b b' => other_columns_same b b' /\
+                       b_log2 b' == Gen.FnCnaryCenter.fn_center_row (Proofs.FnCnaryCenter.nonempty sel) by_chrom verbose est
+                                      (map est (group_log2 sel)) (map b_log2 sel) (b_log2 b))
+          t (center_all est by_chrom skip_low build t).
+Proof. exact Proofs.FnCnaryCenter.fn_center_all_eq. Qed.
+
+(* the estimator dispatch: a known name selects the model's estimator out of the table est_funcs, a callable is itself,
+   and the code raises ValueError exactly on the names the model does not know *)
+Theorem C15_source_estimator_name : forall kde s e,
+  est_of_name s = Some e ->
+  Gen.FnCnaryEstimator.fn_center_estimator (inl s) qmean median (mode_of kde) biweight = est_fun kde e.
+Proof. exact Proofs.FnCnaryEstimator.fn_center_estimator_name. Qed.
+
+Theorem C15_source_estimator_callable : forall f m1 m2 m3 m4,
+  Gen.FnCnaryEstimator.fn_center_estimator (inr f) m1 m2 m3 m4 = f.
+Proof. exact Proofs.FnCnaryEstimator.fn_center_estimator_callable. Qed.
+
+Theorem C15_source_estimator_known : forall s m1 m2 m3 m4,
+  Gen.FnCnaryEstimator.fn_estimator_known s m1 m2 m3 m4 = match est_of_name s with Some _ => true | None => false end.
+Proof. exact Proofs.FnCnaryEstimator.fn_estimator_known_eq. Qed.
+
+From CNV Require Proofs.FnCnaryGuess Proofs.FnCnaryFlatWhole Proofs.FnSexCommand.
+
+(* guess_xx, the whole function: no decision -> None, otherwise the decision negated (`~is_xy`) *)
+Theorem C15_source_guess_xx : forall gstat hap build t keys verbose,
+  guess_xx gstat hap build t = Gen.FnCnaryGuess.fn_guess_xx (sex_decision gstat hap build t) keys verbose.
+Proof. exact Proofs.FnCnaryGuess.fn_guess_xx_eq. Qed.
+
+(* expect_flat_log2, the whole function per bin: with the reference sex given ... *)
+Theorem C15_source_flat_whole_given : forall hap build t g,
+  expect_flat hap build t =
+  map (fun b => Gen.FnCnaryFlatWhole.fn_expect_flat_whole (Some hap) g 0 (chr_x_filter t build b) (chr_y_filter t build b)
+                                                         (chr_y_filter t None b)) t.
+Proof. exact Proofs.FnCnaryFlatWhole.fn_expect_flat_whole_given. Qed.
+
+(* ... and left out: `not self.guess_xx(diploid_parx_genome=..., verbose=False)` decides (a missing guess: haploid) *)
+Theorem C15_source_flat_whole_guess : forall gstat build t,
+  expect_flat_guess gstat build t =
+  map (fun b => Gen.FnCnaryFlatWhole.fn_expect_flat_whole None (guess_xx gstat false build t) 0
+                  (chr_x_filter t build b) (chr_y_filter t build b) (chr_y_filter t None b)) t.
+Proof. exact Proofs.FnCnaryFlatWhole.fn_expect_flat_whole_guess. Qed.
+
+(* commands.do_sex: strsign picks the "+" format exactly for a positive number (NaN: the plain one) *)
+Theorem C15_source_strsign : forall q plus plain,
+  Gen.FnSexCommand.fn_strsign (Some q) plus plain = (if strsign_plus q then plus else plain) /\
+  Gen.FnSexCommand.fn_strsign None plus plain = plain.
+Proof. exact Proofs.FnSexCommand.fn_strsign_eq. Qed.
+
+(* commands.do_sex: one row (guess_and_format, whole) is the model's do_sex_row: the label, and the two ratios printed
+   exactly when compare_sex_chromosomes returned statistics ("NA" otherwise) *)
+Theorem C15_source_do_sex_row : forall gstat hap build t sample x_text y_text,
+  let r := do_sex_row gstat hap build t in
+  Gen.FnSexCommand.fn_guess_and_format (sex_decision gstat hap build t)
+    (Proofs.FnSexCommand.stats_keys (Proofs.FnSexCommand.has_ratios r)) sample x_text y_text =
+  (sample, fst r, if Proofs.FnSexCommand.has_ratios r then x_text else "NA"%string,
+   if Proofs.FnSexCommand.has_ratios r then y_text else "NA"%string).
+Proof. exact Proofs.FnSexCommand.fn_guess_and_format_eq. Qed.
+
+Theorem C15_source_do_sex_columns : do_sex_header = Gen.FnSexCommand.fn_do_sex_columns.
+Proof. exact Proofs.FnSexCommand.fn_do_sex_columns_eq. Qed.
+
+From CNV Require Proofs.FnGaryAutosomes Proofs.FnCnaryAutosomes.
+
+(* GenomicArray.autosomes (skgenome/gary.py), the whole function per row: the table itself when no chromosome has a numeric
+   name, else the rows with a numeric name or an `also` bit -- the filter by the generated row function *)
+Theorem C15_source_gary_autosomes : forall t also na aa,
+  Proofs.FnGaryAutosomes.gary_autosomes t also = filter (Proofs.FnGaryAutosomes.gary_keep t also na aa) t.
+Proof. exact Proofs.FnGaryAutosomes.fn_gary_autosomes_eq. Qed.
+
+(* CopyNumArray.autosomes, the whole override: the model's autosome selection (what center_all centres on and
+   compare_sex_chromosomes compares with) is the filter by the generated override around the generated base-class function *)
+Theorem C15_source_autosomes : forall t build na aa,
+  autosomes t build = filter (Proofs.FnCnaryAutosomes.cnary_keep t build na aa) t.
+Proof. exact Proofs.FnCnaryAutosomes.fn_cnary_autosomes_eq. Qed.
+
+(* ... and a caller's `also` mask is OR-ed with the PAR-X mask when a build is given *)
+Theorem C15_source_autosomes_also : forall has_b also_bit parx base,
+  Gen.FnCnaryAutosomes.fn_cnary_autosomes has_b (Some also_bit) parx true base =
+  base (Some (if has_b then also_bit || parx else also_bit)).
+Proof. exact Proofs.FnCnaryAutosomes.fn_cnary_autosomes_also. Qed.
+
+From CNV Require Proofs.FnCnaryDropLow Proofs.FnCnaryShifts Proofs.FnCnarySexLib Proofs.FnCnaryYFactor Proofs.FnCnaryRatios.
+
+(* drop_low_coverage, the whole function per row (`return self[~drop_idx]`): the model's drop_low is the filter by it *)
+Theorem C15_source_drop_low : forall t verbose,
+  drop_low t =
+  filter (fun b => Gen.FnCnaryDropLow.fn_drop_low_keep (b_log2 b) (has_depth_of b) (depth_of b) verbose
+                     null_log2_coverage min_ref_coverage) t.
+Proof. exact Proofs.FnCnaryDropLow.fn_drop_low_eq. Qed.
+
+(* compare_sex_chromosomes: the chrX shifts `(-1, 0) if is_haploid_x_reference else (0, +1)` *)
+Theorem C15_source_x_shifts : forall hap,
+  x_shifts hap = (inject_Z (fst (Gen.FnCnaryShifts.fn_x_shifts hap)), inject_Z (snd (Gen.FnCnaryShifts.fn_x_shifts hap))).
+Proof. exact Proofs.FnCnaryShifts.fn_x_shifts_eq. Qed.
+
+(* compare_sex_chromosomes: the whole chrY statement (`if len(chry): ... else: chry_male_lr = np.nan`) on the model's own
+   result -- the chrY ratio exists exactly when chrY has bins, the score is the chrX ratio times it *)
+Theorem C15_source_y_factor : forall gstat hap build t d st id id',
+  compare_sex gstat hap build t = Some (d, st) ->
+  let chry := filter (chr_y_filter t build) t in
+  s_score st == fst (Gen.FnCnaryYFactor.fn_y_factor id id' (Z.of_nat (length chry)) (s_x_lr st) (val_of (s_y_lr st)) true) /\
+  s_y_lr st = snd (Gen.FnCnaryYFactor.fn_y_factor id id' (Z.of_nat (length chry)) (s_x_lr st) (val_of (s_y_lr st)) true).
+Proof. exact Proofs.FnCnaryYFactor.fn_y_factor_eq. Qed.
+
+(* compare_sex_chromosomes: the two reported ratios (chrX / chrY mean minus the autosomal mean; the Y ratio missing when
+   chrY has no bins) are the translated differences on the model's three means *)
+Theorem C15_source_sex_ratios : forall gstat hap build t d st,
+  compare_sex gstat hap build t = Some (d, st) ->
+  let use := has_weight t in
+  let r := Gen.FnCnaryRatios.fn_sex_ratios (Proofs.FnCnarySexLib.mean0 (segment_mean use (autosomes t build)))
+             (Proofs.FnCnarySexLib.mean0 (segment_mean use (filter (chr_x_filter t build) t)))
+             (segment_mean use (filter (chr_y_filter t build) t)) in
+  s_x_ratio st == fst r /\ Proofs.FnCnaryRatios.opt_eqQ (s_y_ratio st) (snd r).
+Proof. exact Proofs.FnCnaryRatios.fn_sex_ratios_eq. Qed.
+
+From CNV Require Proofs.FnCnarySelection.
+
+(* center_all's selection `(self.drop_low_coverage(..) if skip_low else self).autosomes(diploid_parx_genome=..)`, tables as
+   ids (0 the table, 1 without its low bins, i + 2 the autosomes of table i): skip_low picks the table, then the autosomes *)
+Theorem C15_source_center_selection : forall skip_low build t build_id,
+  center_selection skip_low build t =
+  Proofs.FnCnarySelection.table_of t build
+    (Gen.FnCnarySelection.fn_center_selection 0 1 skip_low build_id (fun id _ => (id + 2)%Z)).
+Proof. exact Proofs.FnCnarySelection.fn_center_selection_eq. Qed.
